@@ -35,7 +35,10 @@ fn judge(id: &str, r: CaseResult, scenario_json: impl FnOnce() -> String) {
                 return;
             }
         }
-        crate::sim::exec::set_quiet(false);
+        if std::env::var("VERIF_FUZZ_REPLAY").is_err() {
+            // under libFuzzer the panic message is the report; in replay mode the caller prints it
+            crate::sim::exec::set_quiet(false);
+        }
         panic!("VIOLATION property={id}: {}\nscenario: {}", v.msg, scenario_json());
     }
 }
@@ -170,143 +173,272 @@ pub fn fuzz_roundtrip(data: &[u8]) {
     judge("C15", r, || serde_json::to_string(&sc).unwrap_or_default());
 }
 
-// ------------------------------------------------------------------ client schedules (C02, C03, C05, C14)
+// ------------------------------------------------------------------ client schedules (C01 C02 C03 C05 C09 C10 C11 C14)
+//
+// The decoders below mirror props/cgen.rs and props/sgen.rs: which operations may occur, with which
+// relative weights, and the configuration ranges all come from the *same profile* the proptest
+// strategy of that property uses, so a fuzz input can never leave the input domain the oracle was
+// written for.
 
-fn arb_dl(u: &mut Unstructured) -> arbitrary::Result<Dl> {
-    Ok(match u.int_in_range(0..=9)? {
-        0..=4 => Dl::InSecs(u.int_in_range(3600..=200_000)?),
-        5..=7 => Dl::InUs(u.int_in_range(0..=60_000)?),
-        8 => Dl::InUs(0),
-        _ => Dl::PastUs(u.int_in_range(0..=5_000_000)?),
+fn pick_weighted(u: &mut Unstructured, w: &[u32]) -> arbitrary::Result<usize> {
+    let total: u32 = w.iter().sum();
+    if total == 0 {
+        return Err(arbitrary::Error::IncorrectFormat);
+    }
+    let mut t = u.int_in_range(0..=total - 1)?;
+    for (i, x) in w.iter().enumerate() {
+        if t < *x {
+            return Ok(i);
+        }
+        t -= *x;
+    }
+    Ok(w.len() - 1)
+}
+
+fn arb_dl_w(u: &mut Unstructured, far: u32, short: u32, huge: u32, past: u32, client: bool) -> arbitrary::Result<Dl> {
+    Ok(match pick_weighted(u, &[far, short, huge, past])? {
+        0 => Dl::InSecs(u.int_in_range(3600..=199_999)?),
+        1 => match u.int_in_range(0..=2)? {
+            0 => Dl::InUs(u.int_in_range(0..=59_999)?),
+            1 => Dl::InUs(u.int_in_range(0..=59u64)? * 1000),
+            _ => Dl::InUs(0),
+        },
+        2 => match u.int_in_range(0..=if client { 2 } else { 1 })? {
+            0 => Dl::InSecs(u.int_in_range(86_400..=40 * 86_400 - 1)?),
+            1 => Dl::InSecs(u.int_in_range(300 * 86_400..=65_999_999)?),
+            _ => Dl::InSecs(66_000_000),
+        },
+        _ => Dl::PastUs(u.int_in_range(0..=4_999_999)?),
     })
 }
 
-pub fn arb_cscenario(u: &mut Unstructured, faults: bool) -> arbitrary::Result<CScenario> {
+fn arb_advance_us(u: &mut Unstructured) -> arbitrary::Result<u64> {
+    Ok(match u.int_in_range(0..=2)? {
+        0 => u.int_in_range(0..=4_999u64)?,
+        1 => u.int_in_range(0..=99u64)? * 1000,
+        _ => u.int_in_range(0..=19_999u64)? * 1000,
+    })
+}
+
+fn arb_delta(u: &mut Unstructured) -> arbitrary::Result<i32> {
+    Ok(match u.int_in_range(0..=4)? {
+        0 => -1000,
+        1 => 0,
+        2 => 1000,
+        3 => 2000,
+        _ => u.int_in_range(-3000..=2999)?,
+    })
+}
+
+fn arb_range(u: &mut Unstructured, r: &std::ops::RangeInclusive<usize>) -> arbitrary::Result<usize> {
+    u.int_in_range(*r.start()..=*r.end())
+}
+
+pub fn arb_cscenario(u: &mut Unstructured, p: &crate::props::cgen::CProfile) -> arbitrary::Result<CScenario> {
     let cfg = ClientCfg {
-        max_in_flight: u.int_in_range(1..=4)?,
-        buffer: u.int_in_range(1..=3)?,
-        independent: u.arbitrary()?,
-        cap: u.int_in_range(1..=3)?,
-        subscriber: 0,
+        max_in_flight: arb_range(u, &p.max_in_flight)?,
+        buffer: arb_range(u, &p.buffer)?,
+        independent: match p.independent {
+            Some(b) => b,
+            None => u.arbitrary()?,
+        },
+        cap: arb_range(u, &p.cap)?,
+        subscriber: *u.choose(&p.subscribers)?,
     };
-    let n = u.int_in_range(0..=80)?;
+    let w = [
+        p.w_step, p.w_drain, p.w_newcall, p.w_reply, p.w_dup, p.w_unknown, p.w_dropcall, p.w_clone, p.w_drophandle, p.w_advance,
+        p.w_advance_to, p.w_budget, p.w_fault, p.w_peerclose, p.w_closepending,
+    ];
+    let n = u.int_in_range(0..=p.max_ops.saturating_sub(1))?;
     let mut ops = vec![];
     for _ in 0..n {
-        ops.push(match u.int_in_range(0..=if faults { 15 } else { 13 })? {
-            0..=3 => COp::Step { sel: u.arbitrary()? },
-            4 => COp::Drain,
-            5..=6 => COp::NewCall { handle: u.arbitrary()?, dl: arb_dl(u)?, trace: u.int_in_range(0..=3)?, sampled: u.arbitrary()? },
-            7 => COp::Reply { sel: u.arbitrary()?, err: u.arbitrary()? },
-            8 => match u.int_in_range(0..=2)? {
-                0 => COp::ReplyDup { sel: u.arbitrary()? },
-                1 => COp::ReplyUnknown { kind: u.arbitrary()? },
-                _ => COp::CloneHandle { from: u.arbitrary()? },
+        ops.push(match pick_weighted(u, &w)? {
+            0 => COp::Step { sel: u.arbitrary()? },
+            1 => COp::Drain,
+            2 => COp::NewCall {
+                handle: u.arbitrary()?,
+                dl: arb_dl_w(u, p.dl_far, p.dl_short, p.dl_huge, p.dl_past, true)?,
+                trace: u.int_in_range(0..=3)?,
+                sampled: u.arbitrary()?,
             },
-            9 => COp::DropCall { sel: u.arbitrary()?, yields: [u.int_in_range(0..=3)?, u.int_in_range(0..=3)?, u.int_in_range(0..=3)?] },
-            10 => COp::Advance { us: u.int_in_range(0..=20_000_000)? },
-            11 => COp::AdvanceTo { sel: u.arbitrary()?, delta_us: u.int_in_range(-3000..=3000)? },
-            12 => COp::Budget { n: match u.int_in_range(0..=2)? { 0 => 0, 1 => u.int_in_range(1..=3)?, _ => 255 } },
-            13 => COp::DropHandle { sel: u.arbitrary()? },
-            14 => COp::Fault { op: u.int_in_range(0..=4)?, k: u.int_in_range(0..=11)? },
-            _ => COp::PeerClose,
+            3 => COp::Reply { sel: u.arbitrary()?, err: u.int_in_range(0..=4)? == 0 },
+            4 => COp::ReplyDup { sel: u.arbitrary()? },
+            5 => COp::ReplyUnknown { kind: u.arbitrary()? },
+            6 => {
+                let sel = u.arbitrary()?;
+                let y = [u.int_in_range(0..=3u8)?, u.int_in_range(0..=3u8)?, u.int_in_range(0..=3u8)?];
+                let use_y: bool = u.int_in_range(0..=4)? < 3;
+                COp::DropCall { sel, yields: if p.yields && use_y { y } else { [0, 0, 0] } }
+            }
+            7 => COp::CloneHandle { from: u.arbitrary()? },
+            8 => COp::DropHandle { sel: u.arbitrary()? },
+            9 => COp::Advance { us: arb_advance_us(u)? },
+            10 => COp::AdvanceTo { sel: u.arbitrary()?, delta_us: arb_delta(u)? },
+            11 => COp::Budget {
+                n: match u.int_in_range(0..=7)? {
+                    0..=2 => 0,
+                    3..=5 => u.int_in_range(1..=3)?,
+                    _ => 255,
+                },
+            },
+            12 => COp::Fault { op: u.int_in_range(0..=4)?, k: u.int_in_range(0..=11)? },
+            13 => COp::PeerClose,
+            _ => COp::ClosePending { n: u.int_in_range(0..=3)? },
         });
     }
     Ok(CScenario { cfg, ops })
 }
 
+const CLIENT_IDS: [&str; 8] = ["C01", "C02", "C03", "C05", "C09", "C10", "C11", "C14"];
+
 pub fn fuzz_sched_client(data: &[u8]) {
     init();
-    if data.is_empty() {
+    if data.len() < 2 {
         return;
     }
-    let which = match std::env::var("VERIF_FUZZ_ONLY").as_deref() {
-        Ok("C02") => 0,
-        Ok("C03") => 1,
-        Ok("C05") => 2,
-        Ok("C14") => 3,
-        _ => data[0] % 4,
+    let only = std::env::var("VERIF_FUZZ_ONLY").ok();
+    let id = match only.as_deref().and_then(|o| CLIENT_IDS.iter().find(|x| **x == o)) {
+        Some(x) => *x,
+        None => CLIENT_IDS[(data[0] as usize) % CLIENT_IDS.len()],
     };
-    let mut u = Unstructured::new(&data[1..]);
-    let Ok(sc) = arb_cscenario(&mut u, which == 0 || which == 3) else { return };
-    let js = || serde_json::to_string(&sc).unwrap_or_default();
-    match which {
-        0 => judge("C02", crate::props::c02::check(&sc), js),
-        1 => judge("C03", crate::props::c03::check(&sc), js),
-        2 => judge("C05", crate::props::c05::check(&sc), js),
-        _ => judge("C14", crate::props::c14::check_client(&sc), js),
+    let flag = data[1];
+    let mut u = Unstructured::new(&data[2..]);
+    use crate::props::*;
+    let prof = match id {
+        "C01" => c01::profile(),
+        "C02" => c02::profile(),
+        "C03" => c03::profile(),
+        "C05" => c05::profile(),
+        "C09" => c09::client_profile(),
+        "C10" => c10::client_profile(),
+        "C11" => c11::client_profile(),
+        _ => c14::client_profile(),
+    };
+    let Ok(sc) = arb_cscenario(&mut u, &prof) else { return };
+    let js = || format!("{} flag={flag}", serde_json::to_string(&sc).unwrap_or_default());
+    match id {
+        "C01" => judge("C01", c01::check(&sc), js),
+        "C02" => judge("C02", c02::check(&sc), js),
+        "C03" => judge("C03", c03::check(&sc), js),
+        "C05" => judge("C05", c05::check(&sc), js),
+        "C09" => judge("C09", c09::check_client(&sc, flag % 3 == 0), js),
+        "C10" => judge("C10", c10::check_client(&sc), js),
+        "C11" => judge("C11", c11::check_client(&sc, if flag % 3 == 0 { Some((flag / 3) % 40) } else { None }), js),
+        _ => judge("C14", c14::check_client(&sc), js),
     }
 }
 
-// ------------------------------------------------------------------ server schedules (C04, C06, C08, C12)
+// ------------------------------------------------------------------ server schedules (C04 C06 C08 C09 C10 C11 C12 C14)
 
-pub fn arb_sscenario(u: &mut Unstructured, limits: &[Option<usize>]) -> arbitrary::Result<SScenario> {
-    let cfg = ServerCfg {
-        limit: *u.choose(limits)?,
-        resp_buffer: u.int_in_range(1..=4)?,
-        independent: u.arbitrary()?,
-        cap: u.int_in_range(1..=3)?,
-        adaptor: u.int_in_range(0..=3)? == 0,
-        subscriber: 0,
+fn arb_request(u: &mut Unstructured, p: &crate::props::sgen::SProfile, plain_ids: bool) -> arbitrary::Result<SOp> {
+    let idw = if plain_ids { [p.id_fresh, p.id_wide, 0, 0] } else { [p.id_fresh, p.id_wide, p.id_dup, p.id_reuse] };
+    let idk = match pick_weighted(u, &idw)? {
+        0 => IdKind::Fresh,
+        1 => IdKind::FreshWide(u.arbitrary()?),
+        2 => IdKind::DupInFlight(u.arbitrary()?),
+        _ => IdKind::ReuseCompleted(u.arbitrary()?),
     };
-    let n = u.int_in_range(0..=70)?;
+    Ok(SOp::SendRequest {
+        idk,
+        dl: arb_dl_w(u, p.dl_far, p.dl_short, p.dl_huge, p.dl_past, false)?,
+        trace: u.int_in_range(0..=3)?,
+        sampled: u.arbitrary()?,
+        hold: (u.int_in_range(0..=999u32)? as f64) < p.hold * 1000.0,
+    })
+}
+
+pub fn arb_sscenario(u: &mut Unstructured, p: &crate::props::sgen::SProfile) -> arbitrary::Result<SScenario> {
+    let cfg = ServerCfg {
+        limit: *u.choose(&p.limits)?,
+        resp_buffer: arb_range(u, &p.resp_buffer)?,
+        independent: match p.independent {
+            Some(b) => b,
+            None => u.arbitrary()?,
+        },
+        cap: arb_range(u, &p.cap)?,
+        adaptor: match p.adaptor {
+            Some(b) => b,
+            None => u.int_in_range(0..=9)? < 3,
+        },
+        subscriber: *u.choose(&p.subscribers)?,
+    };
+    let w = [
+        p.w_step, p.w_drain, p.w_request, p.w_cancel, p.w_complete, p.w_drophandler, p.w_startheld, p.w_dropheld, p.w_advance,
+        p.w_advance_to, p.w_budget, p.w_fault, p.w_peerclose, p.w_dropchannel, p.w_cancel_then_request,
+    ];
+    let n = u.int_in_range(0..=p.max_ops.saturating_sub(1))?;
     let mut ops = vec![];
     for _ in 0..n {
-        ops.push(match u.int_in_range(0..=14)? {
-            0..=3 => SOp::Step { sel: u.arbitrary()? },
-            4 => SOp::Drain,
-            5..=7 => SOp::SendRequest {
-                idk: match u.int_in_range(0..=9)? {
-                    0..=5 => IdKind::Fresh,
-                    6 | 7 => IdKind::FreshWide(u.arbitrary()?),
-                    8 => IdKind::DupInFlight(u.arbitrary()?),
-                    _ => IdKind::ReuseCompleted(u.arbitrary()?),
+        match pick_weighted(u, &w)? {
+            0 => ops.push(SOp::Step { sel: u.arbitrary()? }),
+            1 => ops.push(SOp::Drain),
+            2 => ops.push(arb_request(u, p, false)?),
+            3 => {
+                let sel = u.arbitrary()?;
+                let unknown = if (u.int_in_range(0..=999u32)? as f64) < p.unknown_cancel * 1000.0 { Some(u.arbitrary()?) } else { None };
+                ops.push(SOp::SendCancel { sel, unknown })
+            }
+            4 => ops.push(SOp::CompleteHandler { sel: u.arbitrary()?, err: u.int_in_range(0..=4)? == 0 }),
+            5 => ops.push(SOp::DropHandler { sel: u.arbitrary()? }),
+            6 => ops.push(SOp::StartHeld { sel: u.arbitrary()? }),
+            7 => ops.push(SOp::DropHeld { sel: u.arbitrary()? }),
+            8 => ops.push(SOp::Advance { us: arb_advance_us(u)? }),
+            9 => ops.push(SOp::AdvanceTo { sel: u.arbitrary()?, delta_us: arb_delta(u)? }),
+            10 => ops.push(SOp::Budget {
+                n: match u.int_in_range(0..=2)? {
+                    0 => 0,
+                    1 => u.int_in_range(1..=3)?,
+                    _ => 255,
                 },
-                dl: arb_dl(u)?,
-                trace: u.int_in_range(0..=3)?,
-                sampled: u.arbitrary()?,
-                hold: u.int_in_range(0..=9)? == 0,
-            },
-            8 => SOp::SendCancel { sel: u.arbitrary()?, unknown: if u.int_in_range(0..=4)? == 0 { Some(u.arbitrary()?) } else { None } },
-            9 | 10 => SOp::CompleteHandler { sel: u.arbitrary()?, err: u.int_in_range(0..=4)? == 0 },
-            11 => match u.int_in_range(0..=3)? {
-                0 => SOp::DropHandler { sel: u.arbitrary()? },
-                1 => SOp::StartHeld { sel: u.arbitrary()? },
-                2 => SOp::DropHeld { sel: u.arbitrary()? },
-                _ => SOp::Advance { us: u.int_in_range(0..=20_000_000)? },
-            },
-            12 => SOp::AdvanceTo { sel: u.arbitrary()?, delta_us: u.int_in_range(-3000..=3000)? },
-            13 => SOp::Budget { n: match u.int_in_range(0..=2)? { 0 => 0, 1 => u.int_in_range(1..=3)?, _ => 255 } },
-            _ => SOp::SendCancel { sel: u.arbitrary()?, unknown: None },
-        });
+            }),
+            11 => ops.push(SOp::Fault { op: u.int_in_range(0..=4)?, k: u.int_in_range(0..=11)? }),
+            12 => ops.push(SOp::PeerClose),
+            13 => ops.push(SOp::DropChannel),
+            _ => {
+                ops.push(SOp::SendCancel { sel: u.arbitrary()?, unknown: None });
+                ops.push(arb_request(u, p, true)?);
+            }
+        }
     }
     Ok(SScenario { cfg, ops })
 }
 
+const SERVER_IDS: [&str; 8] = ["C04", "C06", "C08", "C09", "C10", "C11", "C12", "C14"];
+
 pub fn fuzz_sched_server(data: &[u8]) {
     init();
-    if data.is_empty() {
+    if data.len() < 2 {
         return;
     }
-    let which = match std::env::var("VERIF_FUZZ_ONLY").as_deref() {
-        Ok("C08") => 0,
-        Ok("C04") => 1,
-        Ok("C06") => 2,
-        Ok("C12") => 3,
-        _ => data[0] % 4,
+    let only = std::env::var("VERIF_FUZZ_ONLY").ok();
+    let id = match only.as_deref().and_then(|o| SERVER_IDS.iter().find(|x| **x == o)) {
+        Some(x) => *x,
+        None => SERVER_IDS[(data[0] as usize) % SERVER_IDS.len()],
     };
-    let mut u = Unstructured::new(&data[1..]);
-    let limits: &[Option<usize>] = match which {
-        0 => &[None],
-        3 => &[Some(0), Some(1), Some(2), Some(3)],
-        _ => &[None, Some(1), Some(2)],
+    let flag = data[1];
+    let mut u = Unstructured::new(&data[2..]);
+    use crate::props::sprops::*;
+    let prof = match id {
+        "C04" => c04_profile(),
+        "C06" => c06_profile(),
+        "C08" => c08_profile(),
+        "C09" => c09s_profile(),
+        "C10" => c10s_profile(),
+        "C11" => c11s_profile(),
+        "C12" => c12_profile(),
+        _ => c14s_profile(),
     };
-    let Ok(sc) = arb_sscenario(&mut u, limits) else { return };
-    let js = || serde_json::to_string(&sc).unwrap_or_default();
-    match which {
-        0 => judge("C08", crate::props::sprops::c08_check(&sc), js),
-        1 => judge("C04", crate::props::sprops::c04_check(&sc), js),
-        2 => judge("C06", crate::props::sprops::c06_check(&sc), js),
-        _ => judge("C12", crate::props::sprops::c12_check(&sc), js),
+    let Ok(sc) = arb_sscenario(&mut u, &prof) else { return };
+    let js = || format!("{} flag={flag}", serde_json::to_string(&sc).unwrap_or_default());
+    match id {
+        "C04" => judge("C04", c04_check(&sc), js),
+        "C06" => judge("C06", c06_check(&sc), js),
+        "C08" => judge("C08", c08_check(&sc), js),
+        "C09" => judge("C09", c09s_check(&sc), js),
+        "C10" => judge("C10", c10s_check(&sc), js),
+        "C11" => judge("C11", c11s_check(&sc, flag % 5 == 0), js),
+        "C12" => judge("C12", c12_check(&sc), js),
+        _ => judge("C14", c14s_check(&sc), js),
     }
 }
 
